@@ -2328,6 +2328,14 @@ pub fn new_manager<
             let store = &*gc_mref.0;
             loop {
                 let mut lock = store.gc_signal.0.lock();
+                // Verification hook: a manager that is dropped before this
+                // thread reaches `wait()` for the first time would otherwise
+                // never see the `Quit` signal. The exploration harness creates
+                // (and drops) thousands of managers per second.
+                #[cfg(oxidd_verif)]
+                if *lock == GCSignal::Quit {
+                    break;
+                }
                 store.gc_signal.1.wait(&mut lock);
                 if *lock == GCSignal::Quit {
                     break;
